@@ -119,9 +119,9 @@ fn case() -> impl Strategy<Value = LoopCase> {
             any::<bool>(),
             (c02::alloc_steps(2), c02::alloc_masks(), proptest::option::weighted(0.35, prop_oneof![0u32..=40, 0u32..=400, 0u32..=4000])),
         ),
-        (proptest::array::uniform4(prop::bool::weighted(0.4)), proptest::array::uniform4(proptest::option::weighted(0.3, prop_oneof![0u64..=100, any::<u64>()])), prop_oneof![Just(1_000_000_000u64), Just(1_000_000_000_000u64), Just(3_000_000_000u64)]),
+        (proptest::array::uniform4(prop::bool::weighted(0.4)), proptest::array::uniform4(proptest::option::weighted(0.3, prop_oneof![0u64..=100, any::<u64>()])), prop_oneof![Just(1_000_000_000u64), Just(1_000_000_000_000u64), Just(3_000_000_000u64)], any::<bool>()),
     )
-        .prop_map(|((entry, input, output, threads, n, s), (call, skew, benched, first, vary, (gen, (call_mask, thread_mask), max_ns)), (input_counters, const_counters, frequency))| {
+        .prop_map(|((entry, input, output, threads, n, s), (call, skew, benched, first, vary, (gen, (call_mask, thread_mask), max_ns)), (input_counters, const_counters, frequency, const_first))| {
             let mut c = LoopCase::basic(entry, input, output);
             c.threads = threads;
             c.sample_count = Some(n);
@@ -137,7 +137,10 @@ fn case() -> impl Strategy<Value = LoopCase> {
             // `input_counter` followed by `counter` of the same kind on one
             // Bencher is not a documented combination (see DESIGN.md, section
             // 10): constant counters only for kinds without an input counter.
-            c.const_counters = std::array::from_fn(|k| if input_counters[k] && entry.has_inputs() { None } else { const_counters[k] });
+            // The other order (constant first, as with an inherited option)
+            // is well defined: the input counter replaces the constant.
+            c.const_first = const_first;
+            c.const_counters = std::array::from_fn(|k| if input_counters[k] && entry.has_inputs() && !const_first { None } else { const_counters[k] });
             c.allocs.benched = benched;
             c.allocs.benched_first_calls = first;
             c.allocs.benched_vary = vary;
@@ -153,5 +156,5 @@ fn case() -> impl Strategy<Value = LoopCase> {
 
 pub fn groups(g: &mut Groups) {
     PAINT.store(true, std::sync::atomic::Ordering::SeqCst);
-    g.prop("loop", 18_000, 300_000, || case(), check_case);
+    g.prop("loop", 18_000, 1_200_000, || case(), check_case);
 }
